@@ -88,3 +88,19 @@ Example ex_add_gain :
 Proof. reflexivity. Qed.
 Example ex_equilibrium : equilibrium 128%Z [1; 2; 3]%Z = [128; 128; 128]%Z.
 Proof. reflexivity. Qed.
+
+(* For the record (defect F3, repaired in /repo by 521ad3c): the pre-repair text forgot the box
+   first and tested divisibility afterwards.  On the ledger the difference is visible: with
+   N = 2, L = 3 the block stays live and unowned (12 bytes leaked), which is exactly what
+   c10_boxed_fail_releases excludes for the current text. *)
+Definition from_boxed_sample_slice_f3 (N sz : nat) (h : heap) (slice : sref) : res (heap * option sref) :=
+  let len_ := len slice in
+  let* h1 := forget h (addr slice) (len_ * sz) in
+  match from_sample_slice_mut_ref N {| addr := addr slice; len := len_ |} with
+  | Some p => let* h2 := from_raw h1 (addr p) (len p * (N * sz)) in Ok (h2, Some p)
+  | None => Ok (h1, None)
+  end.
+Example ex_f3_leaked :
+  from_boxed_sample_slice_f3 2 4 [(1000, 12, true)] {| addr := 1000; len := 3 |} = Ok ([(1000, 12, false)], None) /\
+  from_boxed_sample_slice 2 4 [(1000, 12, true)] {| addr := 1000; len := 3 |} = Ok ([], None).
+Proof. split; reflexivity. Qed.
